@@ -5,6 +5,7 @@ import math
 
 from common import Outcome, close, f2h, h2f, np, rng_for, run_driver
 
+RULE_ADDENDA = ('detector-level kwargs (JS base, sample weights); stand-alone statistic = compare for all eight; identical constant samples of magnitude up to 3e18')
 LEVEL = "proof"
 EXPLANATION = ("Theorems (Lean, reals): bounds / symmetry / identity for Hellinger, Bhattacharyya, intersection, PSI, KL, JS on probability vectors; bins partition the "
                "pooled range (proportions sum to 1, permutation invariant); EMD / energy non-negativity, symmetry, identity, affine scaling. This run evaluates the "
